@@ -979,6 +979,15 @@ where
                         Some(JSXAttrValue::Lit(Lit::Str(str))) if &str.value == "radio" => {
                             Expr::Ident(self.import_from_vue("vModelRadio"))
                         }
+                        // a spread may supply the type at runtime
+                        None if jsx_element
+                            .opening
+                            .attrs
+                            .iter()
+                            .any(|attr| matches!(attr, JSXAttrOrSpread::SpreadElement(..))) =>
+                        {
+                            Expr::Ident(self.import_from_vue("vModelDynamic"))
+                        }
                         Some(JSXAttrValue::Lit(Lit::Str(..))) | None => {
                             Expr::Ident(self.import_from_vue("vModelText"))
                         }
